@@ -8,4 +8,4 @@ Extraction "rawkv_model.ml"
   scan rscan drange_loop cksum cks_list batch_get batch_put bdel_rounds srv_cas spec_cas
   group_keys sub_batches key_chunks put_chunks all_served drange_run
   srv_batch_put srv_batch_delete append_batches client_scan client_rscan
-  scan_reqs rscan_reqs cksum_reqs drange_reqs Z.of_N.
+  batch_put_args_ok scan_reqs rscan_reqs cksum_reqs drange_reqs Z.of_N.
